@@ -168,7 +168,7 @@ def handleEngine (kv : List (String × String)) (impl : String) : String × Stri
       -- a run that ends by itself without drops is fully determined: all pools × ammo × per reports, each one line
       let n := pools * ammo * per
       let m := if !cancelled && dropped == 0 then modelEngineNatural kind n (max q n) else "-"
-      (m, judgeEngine kind (getS ikv "run") (getS ikv "aggret" == "1") cancelled o)
+      (m, judgeEngine kind (getS ikv "run") (getS ikv "aggret" == "1") cancelled pools o)
     | _, _, _ => ("-", s!"fail:crash:{(impl.take 120).toString}")
   | _, _, _, _, _ => ("-", "fail:driver:unparsable input")
 
@@ -208,7 +208,8 @@ def handleProc (kv : List (String × String)) (impl : String) : String × String
   else match getI? ikv "exit", getN? ikv "served_before", getN? ikv "started", getN? ikv "lines" with
   | some ex, some sb, some st, some l =>
     ("-", judgeProc { exit := ex, servedBefore := sb, started := st, lines := l, bad := (getN? ikv "bad").getD 0,
-                      repro := (getN? ikv "repro").getD 0 })
+                      repro := (getN? ikv "repro").getD 0, timedOut := getS ikv "tmo" == "1",
+                      servedExit := (getN? ikv "served_exit").getD 0 })
   | _, _, _, _ => ("-", s!"fail:crash:{(impl.take 160).toString}")
 
 def handle : Handler := fun input impl =>
